@@ -389,6 +389,60 @@ def evaluate(pid, p, stream, ST, SDS, DS, extra=None):
     return None
 
 
+def evaluate_fault(pid, p, stream, k, how, ST, DS):
+    """The source raises OSError on its (k+1)-th read call (once) and would carry on if asked again.  Whatever the
+    tokenizer hands over -- before the error escapes, or afterwards if it swallows it -- are tokens of the frames the
+    source actually returned: same clauses, positions counted in returned frames."""
+    class Faulty(DS):
+        def __init__(self):
+            self.i, self.calls, self.returned, self.failed = 0, 0, [], False
+
+        def read(self):
+            self.calls += 1
+            if self.calls == k + 1 and not self.failed:
+                self.failed = True
+                raise OSError(-9981, "Input overflowed")
+            if self.i >= len(stream):
+                return None
+            self.i += 1
+            self.returned.append(stream[self.i - 1])
+            return self.returned[-1]
+    src = Faulty()
+    got = []
+    try:
+        t = mk(ST, p)
+        if how == "callback":
+            t.tokenize(src, callback=lambda d, a, b: got.append((list(d), a, b)))
+        else:
+            for d, a, b in t.tokenize(src, generator=True):
+                got.append((list(d), a, b))
+    except OSError:
+        pass
+    except Exception as e:  # noqa
+        return "tokenize on a source whose read() fails once raised %s: %s" % (type(e).__name__, e)
+    ret = "".join(src.returned)
+    pre = "source failing on read call %d (%s mode), frames returned %r: " % (k + 1, how, ret)
+    prev_end = -1
+    for d, a, b in got:
+        if not (isinstance(a, int) and isinstance(b, int) and 0 <= a <= b < len(ret)) or b - a + 1 != len(d) \
+                or list(d) != list(ret[a:b + 1]) or a <= prev_end:
+            return pre + "delivered token (%r, %r, %r) is not the frames at those positions, in order" % ("".join(map(str, d)), a, b)
+        prev_end = b
+    r = check_C02(p, ret, got) if pid == "C02" else check_C03(p, ret, got) if pid == "C03" else None
+    if r:
+        return pre + r
+    if p.get("i0", 0) <= 1 and pid in ("C04", "C08", "C20"):
+        spec = list(spec_C04(p, ret))
+        gp = [(a, b) for _, a, b in got]
+        if gp != spec[:len(gp)]:
+            return pre + "delivered %r are not the first tokens of the segmentation %r of the returned frames" % (gp[:4], spec[:4])
+    return None
+
+
+    return None
+
+
+
 def pre_check(pid):
     """Library-level sentences of C08 / C20 that are not about StreamTokenizer alone."""
     import auditok
@@ -628,6 +682,24 @@ def search(pid, budget, maxlen):
         except ValueError:
             pass            # tuples the constructor rejects are outside every statement but C02's (ctor_check)
     firsts = ("AAAA", "aaAAAAA", "A", "AaA", "AAAAa", "aA", "aaAaA")
+    # a source that fails in mid-stream (every tokenizer statement quantifies over the tokens DELIVERED, for every source)
+    tf = time.time()
+    for L in range(1, 9):
+        for bits in itertools.product("Aa", repeat=L):
+            stream = "".join(bits)
+            for p in params[::3] if L > 6 else params:
+                for k in range(L + 1):
+                    for how in ("callback", "generator"):
+                        n += 1
+                        r = evaluate_fault(pid, p, stream, k, how, ST, DS)
+                        if r:
+                            return {"kind": "tokenizer", "pid": pid, "params": p, "stream": stream, "fault": k, "how": how,
+                                    "observed": r}, n
+            if time.time() - tf > min(10, budget * 0.2):
+                break
+        else:
+            continue
+        break
     for phase in (0, 1):
       for L in range(0, (maxlen if phase == 0 else min(maxlen, 8)) + 1):
         for bits in itertools.product("Aa", repeat=L):
@@ -684,6 +756,15 @@ def replay(w):
             print("expected: property holds;  observed: " + r)
             return 1
         print("property holds on this scenario")
+        return 0
+    if "fault" in w:
+        r = evaluate_fault(w["pid"], w["params"], w["stream"], w["fault"], w["how"], ST, DS)
+        print("property %s, StreamTokenizer%r on stream %r read from a source whose read() raises OSError once (call %d), %s mode" % (
+            w["pid"], tuple(w["params"].get(x, 0) for x in ("m", "M", "s", "i0", "ims", "mode")), w["stream"], w["fault"] + 1, w["how"]))
+        if r:
+            print("expected: property holds;  observed: " + r)
+            return 1
+        print("property holds on this input")
         return 0
     r = evaluate(w["pid"], w["params"], w["stream"], ST, SDS, DS, w)
     print("property %s, StreamTokenizer(str.isupper, min_length=%d, max_length=%d, max_continuous_silence=%d, "
